@@ -251,6 +251,24 @@ func ReplayHistory(tw *TraceWriter, id int, h []Action) {
 			}
 		}
 	}
+	// every third history: the added Code values are built with a random form at every node (incl. ...Func variants) and
+	// are rendered once on their own (GoString, as a debugging print would) BEFORE they are added to the File -
+	// rendering a value must not change what it renders next, with whatever File (C08 / C04: a freshly built File)
+	prerender := h[0].Variant == nil && id%3 == 1
+	if prerender {
+		d1, d2, d3, d4 := 0, 0, 0, 0
+		bA.Form = randomForms(int64(id)*31+seedFromEnv(), &d1, &d2)
+		bB.Form = randomForms(int64(id)*37+seedFromEnv(), &d3, &d4)
+	}
+	prer := func(c jen.Code) jen.Code {
+		if prerender && c != nil {
+			func() {
+				defer func() { recover() }()
+				_ = fmt.Sprintf("%#v", c)
+			}()
+		}
+		return c
+	}
 	body := []*Node{}
 	for _, a := range h[1:] {
 		switch a.A {
@@ -281,8 +299,8 @@ func ReplayHistory(tw *TraceWriter, id int, h []Action) {
 			tw.Emit(Rec{"ev": "Anon", "p": a.P})
 		case "Add":
 			Syms([]*Node{a.Tree}, syms)
-			fA.Add(bA.Code(a.Tree))
-			fB.Add(bB.Code(a.Tree))
+			fA.Add(prer(bA.Code(a.Tree)))
+			fB.Add(prer(bB.Code(a.Tree)))
 			body = append(body, a.Tree)
 			if h[0].SrcInfo != nil {
 				tw.Emit(Rec{"ev": "Add", "tree": Rec{"k": "nil"}}) // the observed body travels with the Render event
